@@ -50,6 +50,7 @@ class StubSim(DynamicOrderSimulation):
         # representation of the done flags: Python bools, or numpy.bool_ as np.all(...) returns them (the packaged
         # corridor and maze simulations do); equal as values, different as objects (`flag is True` is False)
         self.np_flags = bool(script.get("npFlags", False))
+        self.unit = int(script.get("unit", 1))
         # ids are deliberately NOT in lexicographic order (nor of equal length): code that sorts ids, iterates a
         # set of them or compares them as strings then differs visibly from code that keeps the listing order
         self.ids = [agent_id(i) for i in range(self.n)]
@@ -97,7 +98,7 @@ class StubSim(DynamicOrderSimulation):
         self.t += 1
         for a in range(self.n):
             act = action_dict.get(self.ids[a])
-            self.pend[a] += accr(a, self.t, act)
+            self.pend[a] += self.unit * accr(a, self.t, act)
         self.accrued_snapshot = list(self.pend)
         self._set_next()
 
@@ -116,7 +117,8 @@ class StubSim(DynamicOrderSimulation):
         a = self.idx[agent_id]
         r = self.pend[a]
         self.pend[a] = 0
-        return r
+        # with a big unit the reward is a numpy integer scalar (exact beyond 2^53, where a float is not)
+        return np.int64(r) if self.unit != 1 else r
 
     def _done(self, a):
         u = self.undone_at[a] if a < len(self.undone_at) else 1000000
@@ -178,8 +180,10 @@ class FusionStubSim(StubSim):
 def script_to_wire(sc):
     w = [sc["n"], [bool(b) for b in sc["learning"]], list(sc["doneAt"]), sc["finishAt"],
          [list(x) for x in sc["noms"]]]
-    if sc.get("undoneAt"):
-        w.append(list(sc["undoneAt"]))
+    if sc.get("undoneAt") or sc.get("unit", 1) != 1:
+        w.append(list(sc.get("undoneAt") or []))
+    if sc.get("unit", 1) != 1:
+        w.append(int(sc["unit"]))
     return w
 
 
